@@ -135,6 +135,8 @@ type env struct {
 	sugar   *zap.SugaredLogger
 	std     *log.Logger
 	handler slog.Handler
+	// children derived once and shared by all goroutines (first use happens concurrently)
+	sharedNS, sharedRefl *zap.Logger
 	// streams[b] = readers of the final bytes received by the underlying sink(s) of branch b
 	streams [][]func() []byte
 	bws     []*zapcore.BufferedWriteSyncer
@@ -268,6 +270,8 @@ func build(s Spec, reference bool) (*env, error) {
 	e.sugar = e.logger.Sugar()
 	e.std = zap.NewStdLog(e.logger)
 	e.handler = zapslog.NewHandler(core, zapslog.WithName("slog"))
+	e.sharedNS = e.logger.With(zap.String("shared", "ns"), zap.Namespace("ns"))
+	e.sharedRefl = e.logger.With(zap.Reflect("settings", settings{"shared", []int{80}, map[string]string{"k": "v"}}), zap.Namespace("r"))
 	return e, nil
 }
 
@@ -372,7 +376,12 @@ func emit(e *env, s *Spec, c *wctx, gi, seq int) int {
 	case 14:
 		e.sugar.With("w", gi).Warnw(msg, "p", p)
 	case 15:
-		// no call-site fields on a child whose context ends inside an open namespace
+		// no call-site fields on a child whose context ends inside an open namespace; every other
+		// time through a child that all goroutines share
+		if seq%2 == 0 {
+			e.sharedNS.Warn(msg)
+			break
+		}
 		if c.child == nil {
 			c.child = e.logger.With(zap.Int("child_of", gi), zap.Namespace("ns"))
 		}
@@ -382,10 +391,14 @@ func emit(e *env, s *Spec, c *wctx, gi, seq int) int {
 		if c.refl == nil {
 			c.refl = e.logger.With(zap.Reflect("settings", settings{"svc", []int{gi, 80}, map[string]string{"g": id}}), zap.Int("child_of", gi))
 		}
+		l := c.refl
+		if seq%2 == 0 {
+			l = e.sharedRefl
+		}
 		if kind == 16 {
-			c.refl.Info(msg, zap.Reflect("r", []string{id, "x"}), zap.String("p", p))
+			l.Info(msg, zap.Reflect("r", []string{id, "x"}), zap.String("p", p))
 		} else {
-			c.refl.Warn(msg)
+			l.Warn(msg)
 		}
 	}
 	return kind
